@@ -282,6 +282,28 @@ func runC02(c *Ctx, w *World, r *Report) {
 				if !ok {
 					return
 				}
+				// only a scan whose zero count sits inside the loop body
+				inLoop := false
+				for _, pr := range iv.Phi.Block().Preds {
+					if iv.Phi.Block().Dominates(pr) && call.Block().Dominates(pr) || pr == call.Block() {
+						inLoop = true
+					}
+				}
+				if !inLoop && !fa.Reaches(call.Block(), iv.Phi.Block()) {
+					return
+				}
+				if !iv.Phi.Block().Dominates(call.Block()) || !fa.Reaches(call.Block(), iv.Phi.Block()) {
+					// the return inside the loop body leaves the loop: accept when the call's block is control dependent on the loop guard
+					guarded := false
+					for _, cd := range fa.Conds(call.Block()) {
+						if cd.If.Block() == iv.Phi.Block() {
+							guarded = true
+						}
+					}
+					if !guarded {
+						return
+					}
+				}
 				nscan++
 				if iv.Step != 1 {
 					badS = "the next-1 scan does not advance word by word"
